@@ -252,18 +252,29 @@ static void judge_c03(const glue::Files &files, const std::string &main, const g
     r.fail("code:malformed", v.why);
     return;
   }
-  // with the AST at hand: every call passes as many ARGs as the callee (by stack-map name) has parameters
-  if (ast) {
+  // every call passes as many ARGs as a definition of the called name (stack-map func_name) has parameters;
+  // the parameter counts come from the generator's AST or, for mutants, from the reference parse of the source
+  {
+    std::map<std::string, std::set<size_t>> ar;
+    if (ast)
+      for (auto &d : ast->defs) ar[d.name].insert(d.params.size());
+    else
+      ar = ra::judge_source(files, main).arities;
     const auto &c = cr.code.code;
     for (int i = 1; i < (int)c.size(); i++) {
       if (c[(size_t)i].op != OpCode::PREPARE_EXEC) continue;
-      int nargs = 0;
+      size_t nargs = 0;
       for (int j = i + 1; c[(size_t)j].op == OpCode::ARG; j++) nargs++;
       const std::string &fname = cr.code.stack_maps[(size_t)c[(size_t)i].parameters.prepare.index].func_name;
-      bool some = false;
-      for (auto &d : ast->defs)
-        if (d.name == fname && (int)d.params.size() == nargs) some = true;
-      if (!some) {
+      auto it = ar.find(fname);
+      if (it == ar.end()) {
+        if (ast) {
+          r.fail("code:arg-count", "call at " + std::to_string(i) + " enters a routine whose stack map is named '" + fname + "', which is no defined program");
+          return;
+        }
+        continue;  // mutant whose definitions the reference parse could not see
+      }
+      if (!it->second.count(nargs)) {
         r.fail("code:arg-count", "call at " + std::to_string(i) + " to '" + fname + "' passes " + std::to_string(nargs) +
                                      " arguments; no definition of that name has that many parameters");
         return;
@@ -291,15 +302,17 @@ static void judge_c03(const glue::Files &files, const std::string &main, const g
 static void prop_c03(Tape &t, Result &r) {
   int nfiles = 1 + (int)t.weighted({5, 3, 1});
   bool dup = t.chance(1, 4);
-  std::vector<uint8_t> lbytes = derive_bytes(t.u32(), 4096);
-  Tape lt(lbytes);
+  bool mutate = t.chance(2, 5);
+  int nedits = 1 + (int)t.weighted({4, 3, 2});
+  std::vector<uint8_t> lbytes = derive_bytes(t.u32(), 4096), ebytes = derive_bytes(t.u32() ^ 0x3c6ef372u, 256);
+  Tape lt(lbytes), et(ebytes);
   gp::GenCfg cfg;
   cfg.user_macros = t.chance(1, 3);
   cfg.dup_params = dup && !excluded("code:dup-params");
   gp::Gen g(t, cfg);
   gp::Program p = g.generate();
   gp::normalise(p);
-  gp::Layout L = gp::layout_free(p, lt, nfiles);
+  gp::Layout L = gp::layout_free(p, lt, mutate ? 1 : nfiles);
   bool has_dup = false;
   for (auto &d : p.defs) {
     std::set<std::string> s(d.params.begin(), d.params.end());
@@ -310,6 +323,41 @@ static void prop_c03(Tape &t, Result &r) {
   if (has_dup) r.cls("decl:repeated-parameter-name");
   for (auto &c : g.classes)
     if (c == "redefined-program-name") r.cls("decl:redefined-name");
+  if (mutate) {
+    // whatever the compiler accepts must be well formed - also sources no generator of valid programs writes
+    // (surplus / missing arguments, renamed callees and labels, swapped tokens)
+    glue::Files files = L.files;
+    std::vector<std::string> toks = gm::texts_of(files[L.main]);
+    for (int i = 0; i < nedits; i++) {
+      gm::Edit e = gm::random_edit(et, toks, false);
+      // bias towards argument lists: duplicate or drop an argument
+      if (et.chance(1, 3)) {
+        std::vector<size_t> commas;
+        for (size_t k = 0; k < toks.size(); k++)
+          if (toks[k] == "," || toks[k] == "WITH" || toks[k] == "with" || toks[k] == "With") commas.push_back(k);
+        if (!commas.empty()) {
+          size_t at = commas[et.pick((unsigned)commas.size())];
+          if (et.chance(1, 2)) {
+            toks.insert(toks.begin() + (long)at + 1, {"7", ","});
+            if (toks[at] != ",") std::swap(toks[at + 1], toks[at + 1]);
+          } else {
+            toks.insert(toks.begin() + (long)at, {",", "x0"});
+            if (toks[at + 2] != ",") {  // inserted before WITH: move behind it
+              toks.erase(toks.begin() + (long)at, toks.begin() + (long)at + 2);
+              toks.insert(toks.begin() + (long)at + 1, {"x0", ","});
+            }
+          }
+          continue;
+        }
+      }
+      gm::apply_edit(toks, e);
+    }
+    files[L.main] = gm::join(toks, 1 + et.pick(9));
+    r.cls("gen:mutant");
+    judge_c03(files, L.main, nullptr, r);
+    if (!r.discard) r.cls("mutant-accepted-by-compiler");
+    return;
+  }
   judge_c03(L.files, L.main, &p, r);
 }
 static void json_c03(const J &c, Result &r) {
